@@ -129,3 +129,103 @@ Proof.
   destruct (next_total r it ex W) as [it' [sol [A W']]]. rewrite A.
   destruct (IH it' W') as [outs B]. rewrite B. eexists. reflexivity.
 Qed.
+
+(* ---------- the outer selection loop of CreateVP never runs out of fuel ---------- *)
+Lemma search_mono : forall fuel r st ds st' cur, search fuel r st ds = Some (st', cur) -> st <= st'.
+Proof.
+  induction fuel as [|f IH]; intros r st ds st' cur H; simpl in H; [discriminate|].
+  destruct (current st ds); [inversion H; lia|].
+  destruct (satisfied r (n :: l)); [inversion H; lia|]. apply IH in H. lia.
+Qed.
+
+(* potential of an iterator: states still ahead *)
+Definition phi (it : iter) : N := 2 ^ L (it_descs it) - it_state it.
+
+Lemma jump_progress : forall a len k m t,
+  a < 2 ^ len -> k < len -> 1 <= m -> m <= len ->
+  t = N.shiftr (N.ldiff a (N.pred (N.shiftl 1 k)) + N.shiftl 1 k) m ->
+  t <= 2 ^ (len - m) /\ 2 ^ (len - m) - t < 2 ^ len - a.
+Proof.
+  intros a len k m t Ha Hk Hm1 Hm Ht.
+  assert (B : t <= 2 ^ (len - m)) by (subst t; apply exclude_bound; assumption).
+  split; [exact B|].
+  subst t. change (N.pred (N.shiftl 1 k)) with (N.ones k) in *. rewrite N.ldiff_ones_r, N.shiftl_1_l in *.
+  rewrite N.shiftr_div_pow2, N.shiftl_mul_pow2, N.shiftr_div_pow2 in *.
+  assert (P : 2 ^ k <> 0) by (apply N.pow_nonzero; discriminate).
+  assert (Q : 2 ^ m <> 0) by (apply N.pow_nonzero; discriminate).
+  set (c := a / 2 ^ k * 2 ^ k + 2 ^ k) in *.
+  assert (C1 : a < c).
+  { unfold c. pose proof (N.div_mod a (2 ^ k) P) as E. pose proof (N.mod_lt a (2 ^ k) P) as M. lia. }
+  assert (S2 : 2 ^ len = 2 ^ (len - m) * 2 ^ m) by (rewrite <- N.pow_add_r; f_equal; lia).
+  assert (M2 : 2 <= 2 ^ m).
+  { replace m with (N.succ (m - 1)) by lia. rewrite N.pow_succ_r'.
+    assert (2 ^ (m - 1) <> 0) by (apply N.pow_nonzero; discriminate). lia. }
+  pose proof (N.div_mod c (2 ^ m) Q) as E. pose proof (N.mod_lt c (2 ^ m) Q) as M.
+  set (t := c / 2 ^ m) in *. set (T := 2 ^ (len - m)) in *. set (W := 2 ^ len) in *. set (Pm := 2 ^ m) in *.
+  set (rm := c mod Pm) in *.
+  destruct (N.eq_dec T t) as [Et|Et]; [lia|].
+  assert (A1 : 1 <= T - t) by lia.
+  assert (G : (T - t - 1) * Pm < W - c) by nia.
+  assert (G2 : T - t - 1 <= (T - t - 1) * Pm) by nia.
+  lia.
+Qed.
+
+Lemma next_progress : forall r it ex it' sol,
+  wf_iter it -> it_done it = false -> next r it ex = Some (it', sol) ->
+  wf_iter it' /\ phi it' < phi it.
+Proof.
+  intros r it ex it' sol W Dn H. pose proof (W Dn) as Hs. unfold next in H. rewrite Dn in H. unfold phi.
+  destruct (positions_from 0 ex (it_descs it)) as [|p ps] eqn:Hp.
+  - destruct (search_fuel_for r (N.succ (it_state it)) (it_descs it)) as [st2 [cur [A B]]]; [lia|].
+    rewrite A in H. inversion H; subst. simpl. pose proof (search_mono _ _ _ _ _ _ A) as Mo. split.
+    + unfold wf_iter. simpl. intros Hd. apply B. destruct sol; discriminate.
+    + lia.
+  - unfold exclude_step in H. rewrite <- Hp in H.
+    set (pos := positions_from 0 ex (it_descs it)) in *.
+    assert (Hd : remove_pos_from 0 pos (it_descs it) = filter (kept ex) (it_descs it)) by apply remove_positions.
+    rewrite Hd in H.
+    pose proof (filter_positions_len (it_descs it) 0 ex) as Len. fold pos in Len.
+    assert (Hk : (fold_right Nat.max 0%nat pos < length (it_descs it))%nat).
+    { apply max_in; [intros q Hq; apply positions_lt in Hq; lia | rewrite Hp; discriminate]. }
+    assert (Hm1 : (1 <= length pos)%nat) by (rewrite Hp; simpl; lia).
+    set (t := N.shiftr (N.ldiff (it_state it) (N.pred (N.shiftl 1 (N.of_nat (fold_right Nat.max 0%nat pos)))) +
+                        N.shiftl 1 (N.of_nat (fold_right Nat.max 0%nat pos))) (N.of_nat (length pos))) in *.
+    assert (JP : t <= 2 ^ (L (it_descs it) - N.of_nat (length pos)) /\
+                 2 ^ (L (it_descs it) - N.of_nat (length pos)) - t < 2 ^ L (it_descs it) - it_state it).
+    { apply (jump_progress (it_state it) (L (it_descs it)) (N.of_nat (fold_right Nat.max 0%nat pos))
+               (N.of_nat (length pos)) t); [exact Hs | unfold L; lia | lia | unfold L; lia | reflexivity]. }
+    destruct JP as [J1 J2].
+    assert (EL : L (filter (kept ex) (it_descs it)) = L (it_descs it) - N.of_nat (length pos)) by (unfold L; lia).
+    rewrite <- EL in J1, J2.
+    destruct (search_fuel_for r t (filter (kept ex) (it_descs it)) J1) as [st2 [cur [A B]]].
+    rewrite A in H. inversion H; subst. simpl. pose proof (search_mono _ _ _ _ _ _ A) as Mo. split.
+    + unfold wf_iter. simpl. intros Hdn. apply B. destruct sol; discriminate.
+    + lia.
+Qed.
+
+Lemma apply_loop_fuel : forall fuel v p cs r it ev ms ex,
+  wf_iter it -> it_done it = false -> (N.to_nat (phi it) < fuel)%nat ->
+  apply_loop fuel v p cs r it ev ms ex <> HFuel.
+Proof.
+  induction fuel as [|f IH]; intros v p cs r it ev ms ex W Dn Hf; [lia|]. simpl.
+  destruct (next_total r it ex W) as [it' [sol [A _]]]. rewrite A.
+  destruct (next_progress _ _ _ _ _ W Dn A) as [W' P].
+  destruct sol as [|s0 st]; [discriminate|].
+  destruct (eval_sol v p cs (s0 :: st) ev ms) as [[[solved ev'] ms'] ex'].
+  destruct solved; [discriminate|].
+  apply IH; [exact W'| |lia].
+  (* a non-empty result means the iterator is not finished *)
+  unfold next in A. rewrite Dn in A.
+  destruct (positions_from 0 ex (it_descs it)); [|unfold exclude_step in A];
+    match type of A with context [search ?f r ?s ?d] => destruct (search f r s d) as [[st2 cur]|]; [|discriminate] end;
+    inversion A; subst; reflexivity.
+Qed.
+
+Lemma holder_select_no_fuel : forall v p creds, holder_select v p creds <> HFuel.
+Proof.
+  intros v p creds. unfold holder_select. destruct (make_req p) as [r|]; [|discriminate].
+  apply apply_loop_fuel; [apply new_iter_wf | reflexivity|].
+  unfold phi. simpl. rewrite N.sub_0_r.
+  set (ds := filter (fun d => memN d (all_ids r)) (map d_id (p_descs p))).
+  assert (E : N.of_nat (Nat.pow 2 (length ds)) = 2 ^ L ds) by apply pow2_nat. lia.
+Qed.
